@@ -80,6 +80,8 @@ class ParticleSwarmOptimizer(BasePopulationOptimizer):
             if self.conv.not_in_constraint(pos_new):
                 return pos_new
             pos_new = self.p_current.move_climb(pos_new)
+            self.p_current.pos_new = pos_new
+            return pos_new
 
     @BasePopulationOptimizer.track_new_score
     def evaluate(self, score_new):
